@@ -4,6 +4,10 @@
            entries  what the code's mapping holds, in its order: <<[k, v, shape], ...>> (v may be empty!)
            export   TRUE: also print the specification's reading as JSON (the getters' judge needs it)
      [op |-> "render", m, cl, prefix, q, err]              to_query_str(m) returned q
+     [op |-> "mutate"]                                     something was done to ANOTHER request (its mapping
+           edited in place, a list it returned edited, a form body merged into it).  The reference reading
+           has no state: the readings that follow in the trace are judged exactly as if nothing had happened
+           (a request's mapping depends on its own query string and options only).
    (all events carry all fields; unused ones are empty).  Total; first failing clause recorded:
      P:total          the call raised
      P:empty_list     the code maps a name to an empty list of values although the reference reading has
@@ -52,6 +56,7 @@ JudgeRender(e) ==
 
 Judge(e) == CASE e.op = "parse" -> JudgeParse(e)
               [] e.op = "render" -> JudgeRender(e)
+              [] e.op = "mutate" -> "ok"
               [] OTHER -> "H:op"
 
 Export(e) == (e.op = "parse" /\ e.export) =>
